@@ -16,13 +16,16 @@ from harness.drivers.c14 import codes         # noqa: E402
 
 PRINT = {'kind': 'print', 'r': {'re': [['CH3(S)', '0.5'], ['H2O', '2.0']], 'ts': [['A_TS', '1.0']],
                                 'pr': [['C*', '1.5']]},
-         'd': 2, 'space': False, 'spd': '+', 'rxd': '<=>', 'pad': [1, 1, 0], 'ring': True}
+         'fmt': '.2f', 'space': False, 'spd': '+', 'rxd': '<=>', 'pad': [1, 1, 0], 'ring': True}
 HAND = {'kind': 'hand', 'text': ' 2A + 0.5 A + B2 = 3C* ', 'spd': '+', 'rxd': '=', 'names': ['A', 'B2', 'C*']}
 MISS = dict(HAND, missing='B2')
-BAL = {'kind': 'balance', 're': [['0.5', [['C', 2], ['H', 4]]]], 'pr': [['1.0', [['C', 1], ['H', 2]]]],
-       'ts': [['0.25', [['C', 4], ['H', 8]]]], 'hasTS': True}
-UNBAL = {'kind': 'balance', 're': [['0.5', [['C', 2], ['H', 4]]]], 'pr': [['1.0', [['C', 1], ['H', 3]]]],
+BAL = {'kind': 'balance', 're': [[[1, 3], [['C', 3], ['H', 6]], True]], 'pr': [[[1, 1], [['C', 1], ['H', 2.0]], True]],
+       'ts': [[[2, 3], [['C', 1.5], ['H', 3]], True]], 'hasTS': True}
+UNBAL = {'kind': 'balance', 're': [[[5, 10], [['C', 2], ['H', 4]], True]], 'pr': [[[10, 10], [['C', 1], ['H', 3]], True]],
          'ts': [], 'hasTS': False}
+NOCOMP = {'kind': 'balance', 're': [[[1, 1], [['C', 1]], True]], 'pr': [[[1, 1], [], False]], 'ts': [], 'hasTS': False}
+DROP = {'kind': 'hand', 'text': 'A = 2T1 + T2 = B2', 'spd': '+', 'rxd': '=', 'names': ['A', 'B2', 'T1', 'T2'],
+        'missing': 'T2', 'strict': False, 'warn': True}
 FORM = {'kind': 'formula', 'items': [['C', 0], ['H', 3], ['C', 0], ['H', 2], ['O', 0], ['H', 0]]}
 
 
@@ -34,7 +37,8 @@ def sub(text, old, new):
 
 def main():
     base = {k: c14.execute(v)[0] for k, v in
-            dict(PRINT=PRINT, HAND=HAND, MISS=MISS, BAL=BAL, UNBAL=UNBAL, FORM=FORM).items()}
+            dict(PRINT=PRINT, HAND=HAND, MISS=MISS, BAL=BAL, UNBAL=UNBAL, FORM=FORM, NOCOMP=NOCOMP,
+                 DROP=DROP).items()}
     tests = []            # (label, events, expected clause or None)
 
     def add(label, src, expected, fn=None, drop=None):
@@ -72,6 +76,17 @@ def main():
         lambda e: e[0].__setitem__('err', sub(e[0]['err'], '"B2"', '"??"')))
     add('parse(missing): wrong exception type', 'MISS', 'UnknownNamed',
         lambda e: e[0].__setitem__('err', sub(e[0]['err'], 'KeyError', 'IndexError')))
+    add('print: format claimed .4f although .2f was printed', 'PRINT', 'PrintDenotes',
+        lambda e: (e[0].__setitem__('fmt', codes('.4f')),
+                   e[0]['re'][0].__setitem__(1, codes('0.5001'))))
+    add('parse(TS unknown, raise_error=False): TS kept', 'DROP', 'ParserAgrees',
+        lambda e: (e[0].__setitem__('hasTS', True), e[0].__setitem__('ts', [[codes('T1'), codes('2.0')]])))
+    add('parse(TS unknown, raise_error=False): warning does not name it', 'DROP', 'UnknownNamed',
+        lambda e: e[0].__setitem__('warns', []))
+    add('balance: species without composition accepted', 'NOCOMP', 'BalanceExact',
+        lambda e: (e[0].__setitem__('accepted', True), e[0].__setitem__('err', [])))
+    add('balance: rational coefficient 1/3 logged as 1/4', 'BAL', 'BalanceExact',
+        lambda e: e[0]['re'][0].__setitem__(0, [1, 4]))
     add('balance: balanced reaction rejected', 'BAL', 'BalanceExact',
         lambda e: (e[0].__setitem__('accepted', False), e[0].__setitem__('err', codes('ValueError: x'))))
     add('balance: unbalanced reaction accepted', 'UNBAL', 'BalanceExact',
